@@ -611,7 +611,7 @@ class Gen(object):
         out.append([{'t': 'select_related', 'card': r.choice(['one', 'any', 'many']), 'v': 'r', 'h': r.choice([V('x'), {'t': 'self'}]),
                      'chain': [{'k': kwid(), 'rel': 'R1', 'ph': r.choice(['', 'precedes', "'a b'", kwid()])},
                                {'k': 'B', 'rel': r.choice(['R2', 'From']), 'ph': ''}],
-                     'haswhere': r.random() < 0.5, 'w': Bin('>', Field({'t': 'selected'}, kwid()), E())}])
+                     'haswhere': True, 'w': Bin('>', Field({'t': 'selected'}, kwid()), E())}])
         # parameters of both kinds, index and field chains
         pr = lambda w, n: {'t': 'param', 'w': w, 'n': n} if False else {'t': 'param', 'n': n}
         out.append([Assign({'t': 'index', 'h': {'t': 'index', 'h': V('m'), 'e': E()}, 'e': E()},
